@@ -25,6 +25,9 @@ vars == <<set, toks, enc, dec>>
 Rows == ndJsonDeserialize(IOEnv.TABLES)
 Fx == Rows[1].fx
 Srcs == {0, 4}
+\* signature of each level (a 5-tuple, evaluated once)
+Sig == <<NonExact(Rows, 0, Deviant), NonExact(Rows, 1, Deviant), NonExact(Rows, 2, Deviant), NonExact(Rows, 3, Deviant),
+         NonExact(Rows, 4, Deviant)>>
 
 Init == /\ set = << >> /\ toks = << >>
         /\ enc = [lv \in Levels |-> << >>]
@@ -42,11 +45,11 @@ Run(tk) ==
   /\ toks' = Append(toks, tk)
   /\ IF Track
        THEN LET call == <<"enc", Len(toks) + 1, IF tk = "s" THEN "switch" ELSE "same">>
-                e2 == [lv \in Levels |-> Step(Rows, lv, enc[lv], call, Deviant)]
+                e2 == [lv \in Levels |-> Step(Sig[lv + 1], enc[lv], call)]
             IN /\ enc' = e2
                /\ dec' = [lv \in Levels |-> [s \in Srcs |->
                              \* the decoder is given the packet of encoder s (or nothing / the next packet's FEC data)
-                             Step(Rows, lv, dec[lv][s], <<"dec", tk, e2[s][Len(e2[s])]>>, Deviant)]]
+                             Step(Sig[lv + 1], dec[lv][s], <<"dec", tk, e2[s][Len(e2[s])]>>)]]
        ELSE UNCHANGED <<enc, dec>>
   /\ UNCHANGED set
 
